@@ -22,22 +22,23 @@ const (
 
 // opDef is one instantiated operation of the alphabet.
 type opDef struct {
-	code   string // unique op string, e.g. "b=cdr(a)"
-	name   string // family name used in signatures, e.g. "cdr"
-	dst    int    // variable assigned by the step (-1: none)
-	s, t   int    // operand variables (-1: none)
-	destr  bool   // documented as destructive on its list operand(s)
-	share  shareMode
-	ext    bool // extends a list (cons list* append push add nconc)
-	core   bool // member of the reduced alphabet used for the deep BFS of the thorough tier
-	quick  bool // member of the quick alphabet
-	minS   int  // S must have at least this many elements
-	needT  bool // T must be non-empty
-	anyST  bool // applicable when S or T is non-empty (append)
+	code     string // unique op string, e.g. "b=cdr(a)"
+	name     string // family name, e.g. "subseq-0-2", "sort>-bare"
+	fn       string // the Lisp function, used in signatures, e.g. "subseq", "sort"
+	dst      int    // variable assigned by the step (-1: none)
+	s, t     int    // operand variables (-1: none)
+	destr    bool   // documented as destructive on its list operand(s)
+	share    shareMode
+	ext      bool // extends a list (cons list* append push add nconc)
+	core     bool // member of the reduced alphabet used for the deep BFS of the thorough tier
+	quick    bool // member of the quick alphabet
+	minS     int  // S must have at least this many elements
+	needT    bool // T must be non-empty
+	anyST    bool // applicable when S or T is non-empty (append)
 	distinct bool // S and T must not share by the language rules (nconc/rplacd would build a cycle)
-	lisp   func(n int64) string
-	want   func(sv, tv []int64, n int64) []int64 // expected value of dst (nil func: not checked)
-	wantS  func(sv []int64, n int64) []int64     // expected value of S after element replacement (nil func: not checked)
+	lisp     func(n int64) string
+	want     func(sv, tv []int64, n int64) []int64 // expected value of dst (nil func: not checked)
+	wantS    func(sv []int64, n int64) []int64     // expected value of S after element replacement (nil func: not checked)
 }
 
 var varNames = [3]string{"a", "b", "c"}
@@ -97,7 +98,35 @@ var (
 	opIndex = map[string]*opDef{}
 )
 
+var fnOf = map[string]string{
+	"subseq-0-2": "subseq", "subseq-1": "subseq", "subseq-1-3": "subseq", "subseq-0-0": "subseq", "nthcdr0": "nthcdr", "nthcdr2": "nthcdr",
+	"last2": "last", "butlast2": "butlast", "remove-2nd": "remove", "remove-absent": "remove", "member-2nd": "member",
+	"setf-nth1": "setf-nth", "setf-nth2": "setf-nth", "setf-elt0": "setf-elt", "setf-elt1": "setf-elt", "append1": "append",
+	"sort>": "sort", "sort<": "sort", "delete-2nd": "delete", "rplacd-nil": "rplacd",
+}
+
+// isCore selects the reduced alphabet used for the deep BFS of the thorough tier: one representative per
+// mechanism (view, copy, copy with spare capacity, in-place extension, element replacement, reordering, splice).
+func isCore(o *opDef) bool {
+	switch o.name {
+	case "cdr", "nthcdr0", "butlast", "subseq-0-2", "subseq-1", "remove-if", "add":
+		return o.dst != o.s
+	case "append":
+		return o.dst != o.s && o.s != o.t && o.dst != o.t
+	case "push", "pop", "add-bare", "setf-car", "setf-nth1", "sort>-bare", "rplacd-bare":
+		return true
+	case "nreverse", "delete-2nd", "nconc":
+		return o.dst == o.s
+	}
+	return false
+}
+
 func addOp(o *opDef) {
+	o.core = isCore(o)
+	o.fn = strings.TrimSuffix(o.name, "-bare")
+	if f, has := fnOf[o.fn]; has {
+		o.fn = f
+	}
 	if _, has := opIndex[o.code]; has {
 		panic("duplicate op " + o.code)
 	}
@@ -158,7 +187,7 @@ func init() {
 			}
 			return nil
 		}, true, false},
-		{"mapcar", "(mapcar #'identity %s)", shareNone, 1, func(s []int64) []int64 { return s }, true, false},
+		{"mapcar", "(mapcar (lambda (x) x) %s)", shareNone, 1, func(s []int64) []int64 { return s }, true, false},
 	}
 	for _, u := range unary {
 		u := u
@@ -167,7 +196,7 @@ func init() {
 				d, s := d, s
 				addOp(&opDef{
 					code: fmt.Sprintf("%s=%s(%s)", v[d], u.name, v[s]), name: u.name, dst: d, s: s, t: -1,
-					share: u.share, minS: u.minS, quick: u.quick, core: u.core && d != s,
+					share: u.share, minS: u.minS, quick: u.quick,
 					lisp: func(int64) string { return fmt.Sprintf("(setq %s %s)", v[d], fmt.Sprintf(u.form, v[s])) },
 					want: func(sv, _ []int64, _ int64) []int64 { return u.want(sv) },
 				})
@@ -180,21 +209,21 @@ func init() {
 			d, s := d, s
 			addOp(&opDef{
 				code: fmt.Sprintf("%s=cons(%s)", v[d], v[s]), name: "cons", dst: d, s: s, t: -1, share: shareS, ext: true,
-				quick: true, core: d != s,
-				lisp: func(n int64) string { return fmt.Sprintf("(setq %s (cons %d %s))", v[d], n, v[s]) },
-				want: func(sv, _ []int64, n int64) []int64 { return cat([]int64{n}, sv) },
+				quick: true,
+				lisp:  func(n int64) string { return fmt.Sprintf("(setq %s (cons %d %s))", v[d], n, v[s]) },
+				want:  func(sv, _ []int64, n int64) []int64 { return cat([]int64{n}, sv) },
 			})
 			addOp(&opDef{
 				code: fmt.Sprintf("%s=list*(%s)", v[d], v[s]), name: "list*", dst: d, s: s, t: -1, share: shareS, ext: true,
-				quick: true, core: d != s,
-				lisp: func(n int64) string { return fmt.Sprintf("(setq %s (list* %d %d %s))", v[d], n, n+1, v[s]) },
-				want: func(sv, _ []int64, n int64) []int64 { return cat([]int64{n, n + 1}, sv) },
+				quick: true,
+				lisp:  func(n int64) string { return fmt.Sprintf("(setq %s (list* %d %d %s))", v[d], n, n+1, v[s]) },
+				want:  func(sv, _ []int64, n int64) []int64 { return cat([]int64{n, n + 1}, sv) },
 			})
 			// add is documented by slip as "appends to the list potentially modifying the list": destructive,
 			// the result may share with its argument (like nconc with a fresh one-element list).
 			addOp(&opDef{
 				code: fmt.Sprintf("%s=add(%s)", v[d], v[s]), name: "add", dst: d, s: s, t: -1, share: shareS, ext: true,
-				destr: true, quick: true, core: true,
+				destr: true, quick: true,
 				lisp: func(n int64) string { return fmt.Sprintf("(setq %s (add %s %d))", v[d], v[s], n) },
 				want: func(sv, _ []int64, n int64) []int64 { return cat(sv, []int64{n}) },
 			})
@@ -202,7 +231,7 @@ func init() {
 				t := t
 				addOp(&opDef{
 					code: fmt.Sprintf("%s=append(%s,%s)", v[d], v[s], v[t]), name: "append", dst: d, s: s, t: t, share: shareT,
-					ext: true, anyST: true, quick: true, core: d != s && s != t && d != t || d == s && s != t,
+					ext: true, anyST: true, quick: true,
 					lisp: func(int64) string { return fmt.Sprintf("(setq %s (append %s %s))", v[d], v[s], v[t]) },
 					want: func(sv, tv []int64, _ int64) []int64 { return cat(sv, tv) },
 				})
@@ -212,18 +241,18 @@ func init() {
 	for s := 0; s < 3; s++ {
 		s := s
 		addOp(&opDef{
-			code: fmt.Sprintf("push(%s)", v[s]), name: "push", dst: s, s: s, t: -1, share: shareS, ext: true, quick: true, core: true,
+			code: fmt.Sprintf("push(%s)", v[s]), name: "push", dst: s, s: s, t: -1, share: shareS, ext: true, quick: true,
 			lisp: func(n int64) string { return fmt.Sprintf("(push %d %s)", n, v[s]) },
 			want: func(sv, _ []int64, n int64) []int64 { return cat([]int64{n}, sv) },
 		})
 		addOp(&opDef{
-			code: fmt.Sprintf("pop(%s)", v[s]), name: "pop", dst: s, s: s, t: -1, share: shareS, minS: 1, quick: true, core: true,
+			code: fmt.Sprintf("pop(%s)", v[s]), name: "pop", dst: s, s: s, t: -1, share: shareS, minS: 1, quick: true,
 			lisp: func(int64) string { return fmt.Sprintf("(pop %s)", v[s]) },
 			want: func(sv, _ []int64, _ int64) []int64 { return from(sv, 1) },
 		})
 		addOp(&opDef{
 			code: fmt.Sprintf("add!(%s)", v[s]), name: "add-bare", dst: -1, s: s, t: -1, share: shareKeep, ext: true, destr: true,
-			minS: 0, quick: true, core: true,
+			minS: 0, quick: true,
 			lisp: func(n int64) string { return fmt.Sprintf("(add %s %d)", v[s], n) },
 		})
 		type rp struct {
@@ -244,7 +273,7 @@ func init() {
 			r := r
 			addOp(&opDef{
 				code: fmt.Sprintf("%s(%s)", r.name, v[s]), name: r.name, dst: -1, s: s, t: -1, share: shareKeep, destr: true,
-				minS: r.idx + 1, quick: r.quick, core: r.core,
+				minS: r.idx + 1, quick: r.quick,
 				lisp:  func(n int64) string { return fmt.Sprintf(r.form, v[s], n) },
 				wantS: func(sv []int64, n int64) []int64 { return replaced(sv, r.idx, n) },
 			})
@@ -272,14 +301,14 @@ func init() {
 			x := x
 			addOp(&opDef{
 				code: fmt.Sprintf("%s!(%s)", x.name, v[s]), name: x.name + "-bare", dst: -1, s: s, t: -1, share: shareKeep,
-				destr: true, minS: x.minS, quick: x.q && x.name != "delete-if", core: x.core && x.name == "sort>",
+				destr: true, minS: x.minS, quick: x.q && x.name != "delete-if",
 				lisp: func(int64) string { return fmt.Sprintf(x.form, v[s]) },
 			})
 			for d := 0; d < 3; d++ {
 				d := d
 				addOp(&opDef{
 					code: fmt.Sprintf("%s=%s(%s)", v[d], x.name, v[s]), name: x.name, dst: d, s: s, t: -1, share: shareS,
-					destr: true, minS: x.minS, quick: x.q && d == s, core: x.core && d == s && x.name != "sort>",
+					destr: true, minS: x.minS, quick: x.q && d == s,
 					lisp: func(int64) string { return fmt.Sprintf("(setq %s %s)", v[d], fmt.Sprintf(x.form, v[s])) },
 					want: func(sv, _ []int64, _ int64) []int64 { return x.want(sv) },
 				})
@@ -298,14 +327,14 @@ func init() {
 			})
 			addOp(&opDef{
 				code: fmt.Sprintf("rplacd!(%s,%s)", v[s], v[t]), name: "rplacd-bare", dst: -1, s: s, t: t, share: shareMerge,
-				destr: true, minS: 1, needT: true, distinct: true, quick: true, core: true,
+				destr: true, minS: 1, needT: true, distinct: true, quick: true,
 				lisp: func(int64) string { return fmt.Sprintf("(rplacd %s %s)", v[s], v[t]) },
 			})
 			for d := 0; d < 3; d++ {
 				d := d
 				addOp(&opDef{
 					code: fmt.Sprintf("%s=nconc(%s,%s)", v[d], v[s], v[t]), name: "nconc", dst: d, s: s, t: t, share: shareMerge,
-					destr: true, ext: true, minS: 1, needT: true, distinct: true, quick: d == s, core: d == s,
+					destr: true, ext: true, minS: 1, needT: true, distinct: true, quick: d == s,
 					lisp: func(int64) string { return fmt.Sprintf("(setq %s (nconc %s %s))", v[d], v[s], v[t]) },
 					want: func(sv, tv []int64, _ int64) []int64 { return cat(sv, tv) },
 				})
@@ -317,6 +346,12 @@ func init() {
 				})
 			}
 		}
+		addOp(&opDef{
+			code: fmt.Sprintf("%[1]s=rplacd(%[1]s,nil)", v[s]), name: "rplacd-nil", dst: s, s: s, t: -1, share: shareS,
+			destr: true, minS: 1, quick: true,
+			lisp: func(int64) string { return fmt.Sprintf("(setq %[1]s (rplacd %[1]s nil))", v[s]) },
+			want: func(sv, _ []int64, _ int64) []int64 { return sv[:1] },
+		})
 		addOp(&opDef{
 			code: fmt.Sprintf("rplacd!(%s,nil)", v[s]), name: "rplacd-nil", dst: -1, s: s, t: -1, share: shareKeep,
 			destr: true, minS: 1, quick: true,
